@@ -102,26 +102,28 @@ type mqCall struct {
 // mq is the component world of C15, C16 and C17: the real message queue,
 // peer manager, allocator and publisher over the simulated network.
 type mq struct {
-	prop    string
-	host    *SimHost
-	net     gsnet.GraphSyncNetwork
-	alloc   *allocator.Allocator
-	pm      *peermanager.PeerMessageManager
-	peers   []*Scripted
-	subs    map[string]*mqSub // peer/req
-	calls   []*mqCall
-	nBuilt  map[string]int
-	live    map[string]int   // peer -> queues started and not exited
-	active  map[string]int   // peer -> queues started and not yet told to shut down
-	shutAt  map[string][]int // peer -> steps at which a queue of the peer was told to shut down
-	exitAt  map[string][]int // peer -> steps at which a queue of the peer exited
-	maxLive map[string]int
-	conn    map[string]int // connected notifications outstanding per peer
-	script  []string       // connect/disconnect events: "conn:P", "disc:P"
-	sNext   int
-	descr   string
-	viol    *Violation
-	ctx     context.Context
+	prop       string
+	host       *SimHost
+	net        gsnet.GraphSyncNetwork
+	alloc      *allocator.Allocator
+	ledger     *ledgerAlloc
+	pm         *peermanager.PeerMessageManager
+	peers      []*Scripted
+	subs       map[string]*mqSub // peer/req
+	calls      []*mqCall
+	nBuilt     map[string]int
+	live       map[string]int   // peer -> queues started and not exited
+	active     map[string]int   // peer -> queues started and not yet told to shut down
+	shutAt     map[string][]int // peer -> steps at which a queue of the peer was told to shut down
+	exitAt     map[string][]int // peer -> steps at which a queue of the peer exited
+	maxLive    map[string]int
+	conn       map[string]int // connected notifications outstanding per peer
+	script     []string       // connect/disconnect events: "conn:P", "disc:P"
+	sNext      int
+	descr      string
+	viol       *Violation
+	unreserved *mqCall // first operation built although its reservation had not been granted
+	ctx        context.Context
 }
 
 func newC15() Scenario { return &mq{prop: "C15"} }
@@ -163,10 +165,11 @@ func (s *mq) Build(w *World) {
 		perPeer, total = 1<<20, 4<<20
 	}
 	s.alloc = allocator.NewAllocator(total, perPeer)
+	s.ledger = newLedgerAlloc(w, s.alloc, func(p peer.ID) string { return w.Net.Name(p) })
 	retries := 1 + t.Draw(3)
 	timeout := time.Duration(1+t.Draw(20)) * time.Second
 	s.pm = peermanager.NewMessageManager(s.ctx, func(ctx context.Context, p peer.ID, onShutdown func(peer.ID)) peermanager.PeerQueue {
-		return messagequeue.New(ctx, p, s.net, s.alloc, retries, timeout, onShutdown)
+		return messagequeue.New(ctx, p, s.net, s.ledger, retries, timeout, onShutdown)
 	})
 	w.NameObject(s.pm.PeerManager, "N")
 	w.OnObserve = func(site, detail string, obj any) {
@@ -202,6 +205,9 @@ func (s *mq) Build(w *World) {
 			c.size = unit * uint64([]int{1, 1, 2, 3}[t.Draw(4)])
 			if bigBlocks && t.Chance(300) {
 				c.size = 300 * 1024 // two of these do not fit one message
+			}
+			if !bigBlocks {
+				c.size += uint64(i) // sizes are unique per call, so a reservation can be attributed
 			}
 			if c.size > perPeer {
 				c.size = perPeer
@@ -347,6 +353,18 @@ func (s *mq) fire(w *World, c *mqCall) {
 		s.pm.AllocateAndBuildMessage(p, size, func(b *messagequeue.Builder) {
 			c.built = true
 			c.builtAt = w.Step
+			if size > 0 {
+				// C15 R3: data is never queued without a successful reservation
+				n := 0
+				for _, o := range s.calls {
+					if o.built && o.peer == c.peer && o.size == size {
+						n++
+					}
+				}
+				if g := s.ledger.Grants(c.peer, size); g < n && s.unreserved == nil {
+					s.unreserved = c
+				}
+			}
 			w.mu.Lock()
 			s.nBuilt[c.peer]++
 			c.buildNo = s.nBuilt[c.peer]
@@ -463,6 +481,26 @@ func (s *mq) reportsOf(c *mqCall) []string {
 }
 
 func (s *mq) finalC15(w *World) *Violation {
+	tag := func(c *mqCall) string {
+		if c != nil && s.builtAcrossShutdown(w, c) {
+			return ":built-into-queue-shutting-down"
+		}
+		return ""
+	}
+	if c := s.unreserved; c != nil {
+		return &Violation{Property: "C15", Rule: "R3", Signature: "built-without-reservation" + tag(c), Detail: fmt.Sprintf("operation #%d (%s, %d bytes, peer %s) was built into a message although its reservation was not granted; %s", c.idx, c.kind, c.size, c.peer, s.descr)}
+	}
+	if v := s.ledger.Violation(); v != nil {
+		v.Detail += "; " + s.descr
+		w.mu.Lock()
+		if s.maxLive[s.ledger.violPeer] > 1 {
+			// two queue instances of the peer were alive at once (one flushing after its
+			// shutdown, the other its successor): the input class of a recorded finding
+			v.Signature += ":overlapping-queues"
+		}
+		w.mu.Unlock()
+		return v
+	}
 	// R1: once every queue is idle nothing is accounted to any peer
 	for _, p := range s.peers {
 		if got := s.alloc.AllocatedForPeer(p.ID); got != 0 {
